@@ -67,7 +67,7 @@ fn run_once(alg: &Alg, si: &SearchInstance, od: Od, reverse: bool, budget: crate
     let q = json!({});
     let (out, ctx) = with_ctx_timed(budget, true, timed, || match od {
         Od::Vertex(s, d) => sa.run_vertex_oriented(VertexId(s), d.map(VertexId), &q, &dir, si),
-        Od::Edge(..) => unreachable!(),
+        Od::Edge(s, d) => sa.run_edge_oriented(routee_compass_core::model::network::edge_id::EdgeId(s), d.map(routee_compass_core::model::network::edge_id::EdgeId), &q, &dir, si),
     });
     let out = out.map(|r| match r {
         Ok(r) => Outcome::Ok(r),
@@ -168,8 +168,16 @@ fn case(tier: Tier, rng: &mut Rng, rep: &mut Report, timed_case: bool) {
             gen_plain_alg(rng, true)
         };
         let with_dest = ksp || rng.chance(0.8);
-        let od = gen_vertex_od(rng, &net, with_dest);
-        let reverse = !ksp && rng.chance(0.4);
+        let mut od = gen_vertex_od(rng, &net, with_dest);
+        let mut reverse = !ksp && rng.chance(0.4);
+        // one query in five is edge-oriented (forward): the wrapper around the search must hand a limit's verdict on
+        // unchanged. drawn from a forked stream so that the other cases stay what they were
+        let mut re = rng.fork(0xC10E);
+        if !timed_case && re.chance(0.2) {
+            od = crate::searchcase::gen_edge_od(&mut re, &net, with_dest);
+            reverse = false;
+            rep.count("edge_oriented_queries", 1);
+        }
         let budget = step_budget(net.nv(), net.ne(), 3);
         let replay_base = json!({"world": world.to_json(), "algorithm": alg.to_json(), "od": format!("{:?}", od), "direction": if reverse {"reverse"} else {"forward"}});
         // 1. unlimited reference run
